@@ -78,6 +78,7 @@ func genC20c(rt *rapid.T) c20cCase {
 }
 
 type c20cWorld struct {
+	h       *k8s.VerifHandlers // the handlers the real k8s.New hands to the reconcilers
 	c       *controller
 	lis     *k8s.Listener
 	storeMu sync.Mutex // the harness's API server: not part of the code under test
@@ -140,7 +141,17 @@ func newC20cWorld(c c20cCase) (*c20cWorld, error) {
 			return w.c.SetPools(l, p)
 		},
 	}
+	h, err := k8s.VerifWire(false)
+	if err != nil {
+		panic("verif-inconclusive: cannot wire k8s.New without an API server: " + err.Error())
+	}
+	w.h = h
 	return w, nil
+}
+
+// activate routes the wired handlers to this world's controller.
+func (w *c20cWorld) activate() {
+	k8s.VerifSetCallbacks(k8s.Listener{ServiceChanged: w.lis.ServiceChanged, PoolChanged: w.lis.PoolChanged})
 }
 
 func (w *c20cWorld) logf(e c20cEntry) {
@@ -176,7 +187,7 @@ func (w *c20cWorld) deliver(key string) bool {
 		svc = o.DeepCopy()
 	}
 	w.storeMu.Unlock()
-	return w.lis.ServiceHandler(log.NewNopLogger(), key, svc, nil) == controllers.SyncStateReprocessAll
+	return w.h.Service(log.NewNopLogger(), key, svc, nil) == controllers.SyncStateReprocessAll
 }
 
 func (w *c20cWorld) resync() {
@@ -225,6 +236,7 @@ func runC20c(c c20cCase, tr *vw.Trace) *vw.Violation {
 	if err != nil {
 		return nil
 	}
+	w.activate()
 	reloadReq := make(chan struct{}, 1024)
 	stop := make(chan struct{})
 	svcDone := make(chan struct{})
@@ -287,7 +299,7 @@ func runC20c(c c20cCase, tr *vw.Trace) *vw.Violation {
 		defer wg.Done()
 		for i := range w.pools {
 			w.curP = i
-			if w.lis.PoolHandler(log.NewNopLogger(), w.pools[i]) == controllers.SyncStateReprocessAll {
+			if w.h.Pool(log.NewNopLogger(), w.pools[i]) == controllers.SyncStateReprocessAll {
 				reloadReq <- struct{}{}
 			}
 			yield(i + 3)
@@ -333,6 +345,7 @@ func runC20c(c c20cCase, tr *vw.Trace) *vw.Violation {
 	got := w.final()
 	// serial replay
 	w2, _ := newC20cWorld(c)
+	w2.activate()
 	switches, last := 0, ""
 	for _, e := range w.log {
 		if (e.Kind == "P") != (last == "P") && last != "" {
@@ -347,10 +360,10 @@ func runC20c(c c20cCase, tr *vw.Trace) *vw.Violation {
 			if e.Svc != nil {
 				svc = e.Svc.DeepCopy()
 			}
-			w2.lis.ServiceHandler(log.NewNopLogger(), e.Key, svc, nil)
+			w2.h.Service(log.NewNopLogger(), e.Key, svc, nil)
 		case "P":
 			w2.curP = e.Idx
-			w2.lis.PoolHandler(log.NewNopLogger(), w2.pools[e.Idx])
+			w2.h.Pool(log.NewNopLogger(), w2.pools[e.Idx])
 		}
 	}
 	if switches > 2 {
